@@ -7,7 +7,7 @@ from C01 import setup, replay, validate as _validate, TUS, SHIMS, NATIVE_TUS, AS
 ID = 'C17'
 TITLE = 'one-step differential of StepScript/StepExtended with --allow-disabled-opcodes against string/bitwise/signed-integer reference functions, 15 opcodes'
 FUNCTIONS = ['StepExtended(ScriptExecutionEnvironment&, ...) [debugger/interpreter.cpp]', 'disabled-opcode gate in StepScript [script/interpreter.cpp]', 'CScriptNum operator* / % << >> [script/script.h]']
-ASSUMPTIONS = _A + ['numeric operands longer than 4 bytes, shifts of negative numbers, left shifts beyond 2^63 and concatenations beyond 520 bytes are not prescribed by the property: only crash-freedom is demanded there',
+ASSUMPTIONS = _A + ['numeric operands longer than 4 bytes, left shifts of negative numbers, right shifts of negative numbers that leave a remainder (floor vs toward zero), left shifts beyond 2^63 and concatenations beyond 520 bytes are not prescribed by the property: only crash-freedom is demanded there',
                     'invalid operands must yield *some* script error (or a caught exception), which one is not prescribed']
 OUTSIDE = ['operands longer than 5 bytes', 'tapscript (these byte values are OP_SUCCESSx there)']
 BOUNDS = {'quick': '15 opcodes x {BASE, WITNESS_V0} x operand lengths {0,1,2,4,5} (uniform and mixed) x depth arity-1..arity+1; option off: executed and unexecuted',
